@@ -15,7 +15,7 @@ import (
 
 // SubmitOutcome scripts one answer of the DA double to a submission.
 type SubmitOutcome struct {
-	Kind   string // accept | prefix | timeout | mempool | toobig | error | acklost | cancelled | block | deadline | seqerr
+	Kind   string // accept | prefix | timeout | mempool | toobig | error | acklost | cancelled | cancelledda | block | deadline | seqerr
 	Prefix int    // for "prefix": how many blobs are accepted (clamped to [1,len-1] when possible)
 }
 
@@ -115,6 +115,25 @@ type DADouble struct {
 	// (default), "emptylist" = success with an empty id list, "nilresult" = (nil, nil).
 	EmptyAs   string
 	emptyAsAt map[uint64]string // per-height override of EmptyAs
+	// ConfirmLatency (nanoseconds; 0 = none): every submission is answered only after this long - a busy DA layer that
+	// confirms a blob a few DA blocks after it was sent. The wait honours the caller's context: a caller that gives up
+	// first gets its context's error and nothing of that submission is stored.
+	ConfirmLatency atomic.Int64
+	// ContentIDs (set before anything is placed): ids are derived from the content alone, id = height (8 bytes LE) +
+	// sha256(blob), as the repository's DummyDA and content-addressed layers do. The same bytes placed twice at one
+	// height are then listed twice under one id (in placement order). Default: every placed blob has its own id.
+	ContentIDs bool
+	listed     map[uint64][][]byte // ContentIDs: the id listing of each height in placement order
+	// TimeOf gives the timestamp reported for a height (default: Unix second = height, which leaves the range a
+	// time.Time can be encoded in for heights beyond ~2.5e11).
+	TimeOf func(h uint64) time.Time
+}
+
+func (d *DADouble) tsOf(h uint64) time.Time {
+	if d.TimeOf != nil {
+		return d.TimeOf(h)
+	}
+	return time.Unix(int64(h), 0)
 }
 
 var _ coreda.DA = (*DADouble)(nil)
@@ -221,6 +240,20 @@ func (d *DADouble) placeLocked(h uint64, blobs [][]byte) [][]byte {
 	for _, b := range blobs {
 		d.nonce++
 		hsh := sha256.Sum256(b)
+		if d.ContentIDs {
+			id := make([]byte, 8+len(hsh))
+			binary.LittleEndian.PutUint64(id, h)
+			copy(id[8:], hsh[:])
+			c := append([]byte{}, b...)
+			d.byHeight[h] = append(d.byHeight[h], c)
+			d.ids[string(id)] = c
+			if d.listed == nil {
+				d.listed = map[uint64][][]byte{}
+			}
+			d.listed[h] = append(d.listed[h], id)
+			ids = append(ids, id)
+			continue
+		}
 		id := make([]byte, 8+8+len(hsh))
 		binary.LittleEndian.PutUint64(id, h)
 		binary.LittleEndian.PutUint64(id[8:], d.nonce)
@@ -283,6 +316,22 @@ func (d *DADouble) Submit(ctx context.Context, blobs []coreda.Blob, gasPrice flo
 
 func (d *DADouble) SubmitWithOptions(ctx context.Context, blobs []coreda.Blob, gasPrice float64, namespace []byte, options []byte) ([]coreda.ID, error) {
 	d.delay("submit")
+	var gaveUp error
+	if lat := time.Duration(d.ConfirmLatency.Load()); lat > 0 {
+		t := time.NewTimer(lat)
+		select {
+		case <-t.C:
+		case <-ctx.Done():
+			// the caller gave up before the confirmation: recorded below as "ctxdone", nothing stored
+		}
+		t.Stop()
+		gaveUp = ctx.Err()
+		// judged by the clock, not by which timer the runtime served first: after a stall of the process both the
+		// confirmation and the caller's deadline are due, and the deadline was the earlier one
+		if dl, ok := ctx.Deadline(); ok && gaveUp == nil && !time.Now().Before(dl) {
+			gaveUp = context.DeadlineExceeded
+		}
+	}
 	d.mu.Lock()
 	o := SubmitOutcome{Kind: "accept"}
 	if d.defSub.Kind != "" {
@@ -296,12 +345,15 @@ func (d *DADouble) SubmitWithOptions(ctx context.Context, blobs []coreda.Blob, g
 	for _, b := range blobs {
 		call.Blobs = append(call.Blobs, append([]byte{}, b...))
 	}
-	if ctx.Err() != nil && o.Kind != "block" {
+	if gaveUp == nil {
+		gaveUp = ctx.Err()
+	}
+	if gaveUp != nil && o.Kind != "block" {
 		call.Outcome = "ctxdone"
-		call.Err = ctx.Err().Error()
+		call.Err = gaveUp.Error()
 		d.calls = append(d.calls, call)
 		d.mu.Unlock()
-		return nil, ctx.Err()
+		return nil, gaveUp
 	}
 	store := func(n int) []coreda.ID {
 		if n <= 0 {
@@ -371,6 +423,9 @@ func (d *DADouble) SubmitWithOptions(ctx context.Context, blobs []coreda.Blob, g
 		return fail(errors.New("da double: connection reset after acceptance"))
 	case "cancelled":
 		return fail(context.Canceled)
+	case "cancelledda":
+		// the DA interface's own cancellation sentinel (what the JSON-RPC client maps a remote "context canceled" to)
+		return fail(fmt.Errorf("da double: %w", coreda.ErrContextCanceled))
 	case "block":
 		d.calls = append(d.calls, call)
 		d.mu.Unlock()
@@ -428,7 +483,7 @@ func (d *DADouble) GetIDs(ctx context.Context, height uint64, namespace []byte) 
 	switch o.Kind {
 	case "emptylist":
 		d.calls = append(d.calls, call)
-		return &coreda.GetIDsResult{IDs: []coreda.ID{}, Timestamp: time.Unix(int64(height), 0)}, nil
+		return &coreda.GetIDsResult{IDs: []coreda.ID{}, Timestamp: d.tsOf(height)}, nil
 	case "nilresult":
 		d.calls = append(d.calls, call)
 		return nil, nil
@@ -451,13 +506,19 @@ func (d *DADouble) GetIDs(ctx context.Context, height uint64, namespace []byte) 
 		return nil, RetrieveErr(o.ErrVariant, "listing")
 	}
 	var ids [][]byte
-	for id := range d.ids {
-		if binary.LittleEndian.Uint64([]byte(id)) == height {
-			ids = append(ids, []byte(id))
+	if d.ContentIDs {
+		for _, id := range d.listed[height] {
+			ids = append(ids, append([]byte(nil), id...))
 		}
+	} else {
+		for id := range d.ids {
+			if binary.LittleEndian.Uint64([]byte(id)) == height {
+				ids = append(ids, []byte(id))
+			}
+		}
+		// order by nonce = placement order
+		sortIDs(ids)
 	}
-	// order by nonce = placement order
-	sortIDs(ids)
 	if sc := d.retScr[height]; len(sc) > 0 && sc[0].Kind == "chunkerr" {
 		nChunks := (len(ids) + 99) / 100
 		if sc[0].Chunk >= nChunks {
@@ -466,7 +527,7 @@ func (d *DADouble) GetIDs(ctx context.Context, height uint64, namespace []byte) 
 	}
 	call.NIDs = len(ids)
 	d.calls = append(d.calls, call)
-	return &coreda.GetIDsResult{IDs: ids, Timestamp: time.Unix(int64(height), 0)}, nil
+	return &coreda.GetIDsResult{IDs: ids, Timestamp: d.tsOf(height)}, nil
 }
 
 func sortIDs(ids [][]byte) {
